@@ -154,6 +154,33 @@ def check_orbit(ctx, label, orb, mu, n_phase, displacement, method, order):
                       {"orbit": label, "stable": stable, "phase": j, "pos": d, "neg": m})
 
 
+def nrho_state(mu, x0=1.0220, z0=-0.1821, vy0=-0.1033, tol=1e-12):
+    """Harness-side differential correction (reference variational flow, SciPy DOP853) of a southern L2 near-rectilinear halo orbit:
+    perpendicular x-z plane crossings, x0 fixed, controls (z0, vy0).  Its hyperbolic multipliers are NEGATIVE real (past the
+    period-doubling bifurcation of the halo family): lambda_u ~ -2.19, lambda_s ~ -0.457 for the Earth-Moon 9:2 NRHO."""
+    from scipy.integrate import solve_ivp
+    for _ in range(30):
+        y0 = np.array([x0, 0.0, z0, 0.0, vy0, 0.0])
+        Y0 = np.concatenate([np.eye(6).ravel(), y0])
+
+        def ev(t, Y):
+            return Y[37]
+        s = solve_ivp(lambda t, Y: ref.var_field(Y, mu), (0.0, 1.2), Y0, method="DOP853", rtol=1e-13, atol=1e-13, events=ev, first_step=1e-3)
+        hits = [i for i, t in enumerate(s.t_events[0]) if t > 1e-3]
+        if not hits:
+            raise RuntimeError("NRHO seed: no plane crossing")
+        th, Yh = s.t_events[0][hits[0]], s.y_events[0][hits[0]]
+        Phi, xh = Yh[:36].reshape(6, 6), Yh[36:]
+        f = ref.field(xh, mu)
+        R = np.array([xh[3], xh[5]])
+        if np.abs(R).max() < tol:
+            return y0, 2.0 * float(th)
+        J = Phi[np.ix_([3, 5], [2, 4])] - np.outer(f[[3, 5]], Phi[1, [2, 4]]) / f[1]
+        d = np.linalg.solve(J, -R)
+        z0, vy0 = z0 + d[0], vy0 + d[1]
+    raise RuntimeError("NRHO seed: no convergence")
+
+
 def run(ctx):
     from hiten import System
     from hiten.system import HaloOrbit, LyapunovOrbit, VerticalOrbit
@@ -186,6 +213,28 @@ def run(ctx):
             ctx.sample({"orbit": label, "x0": orb.initial_state, "period": orb.period, "phases": n_phase, "displacement": disp})
             check_orbit(ctx, label, orb, float(sysm.mu), n_phase, disp, method, order)
         guarded(ctx, f"orbit {k}", one)
+
+    # an orbit whose hyperbolic multipliers are negative (NRHO): sign conventions and normalisations that silently assume lambda > 0
+    # are only exercised here; supplied through GenericOrbit with a harness-corrected state and period
+    def nrho(x_start, n_phase, disp):
+        from hiten.system.orbits.base import GenericOrbit
+        mu = 0.012150585609624
+        sysm = systems.setdefault("mu-em", System.from_mu(mu))
+        try:
+            y0, T = nrho_state(mu, x0=x_start)
+        except RuntimeError as exc:
+            ctx.skip(f"NRHO seed not corrected by the harness ({exc})")
+            return
+        orb = GenericOrbit(sysm.get_libration_point(2), initial_state=y0)
+        orb.period = T
+        ctx.sample({"orbit": "nrho", "x0": y0, "period": T, "phases": n_phase, "displacement": disp})
+        check_orbit(ctx, f"earth-moon:L2:nrho:x0={x_start}", orb, mu, n_phase, disp, "adaptive", 8)
+        ctx.count("N:orbit with negative hyperbolic multipliers examined")
+    for k2, (xs_, nph, dsp) in enumerate([(1.0220, 10, 1e-6), (1.0300, 8, 1e-5), (1.0180, 16, 1e-6)][: ctx.pick(1, 3)]):
+        if ctx.mine(len(specs) + k2):
+            guarded(ctx, f"nrho {k2}", nrho, xs_, nph, dsp)
     m = 1 if ctx.nshards > 1 else 1
     ctx.require("3:seed offset is along the true Floquet direction of its branch", 16 * m if ctx.nshards == 1 else 4)
     ctx.require("5:trajectory is the reference flow of its seed at its signed times", 8 if ctx.nshards == 1 else 2)
+    if ctx.nshards == 1:
+        ctx.require("N:orbit with negative hyperbolic multipliers examined", 1)
